@@ -1,23 +1,6 @@
-HOOK_COMMITS = ["b13b084 (branch fix-sym) symbol_table_verif.go: read-only SymbolTable state accessors, nextIndex/defineConstLit/resetCompiler/module-table entry points"]
+"""Manifest texts live next to the per-property configuration (bin/props.d/<id>.json)."""
+from props import TEXTS  # noqa: F401
+
+# commits in /repo that add verification hooks (build tag verif, add-only)
+HOOK_COMMITS = ["695f40a", "5cb0ad0"]
 NOT_APPLICABLE = {}
-TEXTS = {
- "C13": {
-  "technique": "Lean 4 theorems over a hand model of symbol_table.go on a heap of aliased tables (plus the table-creating lines of compileModule and optimizerEval.resetCompiler), invariant proved by induction over arbitrary API call sequences; structural facts (Resolve guard order, disabled-set copies, GETBUILTIN emission sites, BuiltinsMap) regenerated from the Go source and checked by decide; model tied by the step-by-step `symops` correspondence stream; property oracle `disable` on the implementation",
-  "level": "Machine-checked proof: resolve_disabled (for every table reachable by any sequence of NewSymbolTable/Fork/Parent/Define*/SetParams/Resolve/DisableBuiltin/module-table/evaluator-table calls, Resolve never returns a BUILTIN symbol for a name disabled in the table's root), resolve_disabled_undeclared (such a reference is unresolved = compile error unless an enclosing scope declares the name), fork_keeps_disabled, module_table_keeps_disabled, evaluator_table_disabled, shadow_then_resolve(_nested), eval_fragments_persist are Lean theorems quantified over all call sequences and all builtin tables. The Bytecode-level statement C13_full is proved as a reduction (no_getbuiltin_partial) from an explicit description of what the compiler does to symbol tables (CompilerDiscipline); the compiler functions themselves are not modelled.",
-  "note": "Partial: no_getbuiltin_partial assumes CompilerDiscipline (compile* not modelled; the code features it relies on are regenerated facts checked by decide: the two GETBUILTIN emission sites, compileIdent taking the operand from Resolve's BUILTIN symbol, the sites creating tables, the disabled-set copy in compileModule, the copies in resetCompiler). Trusted: Lean kernel; Model/Sym.lean tied by `symops` (2.5k/50k random call sequences on aliased tables compared call by call incl. full state dumps, via add-only verif hooks); goextract symfacts; the `disable` oracle (random disabled subsets x scripts referencing the names at top level, in functions, closures, blocks, imported modules, later Eval fragments, folded constant expressions, with and without declarations of the name, optimizer on/off; GETBUILTIN scan; instrumented BuiltinObjects). Symbol pointers modelled by value. One defect fixed in ugo (DisableBuiltin after the name was resolved had no effect).",
- },
- "C15": {
-  "technique": "Lean 4 theorems over operator cells regenerated from numeric.go/objects.go by a Go-to-Lean translator; hand model of array/map recursion tied by exhaustive pool^2 x operators correspondence",
-  "level": "Machine-checked proof: equal_comm (symmetry of == on all nested well-formed values), neq_not_eq, binop_no_panic (no operator application reaches a Go panic), trichotomy, le_iff_lt_or_eq, lt_flip are Lean theorems quantified over all values and all float arithmetic instances, stated about definitions that goextract regenerates from the Go source on every run; a source edit changes the Lean term and the proof is re-checked.",
-  "note": "Trusted: Lean kernel; goextract translator (fail-closed subset); hand model Model/Ops.lean for Array/Map recursion and left-operand dispatch, tied by the `ops` stream (pool^2 x 15 operators exhaustive + random nested values, model vs Object.BinaryOp/Equal and vs the VM); float arithmetic abstract (FloatOps), IEEE comparison defined on bit patterns. SyncMap/RuntimeError/user types outside the modelled value set.",
- },
- "C17": {
-  "technique": "Lean 4 theorems over a hand model of stdlib/json (encoder with escape tables regenerated from tables.go, scanner automaton, Compact, Indent) against an RFC 8259 recogniser; two-oracle differential stream: model vs implementation and implementation vs encoding/json on generated values and documents",
-  "level": "Machine-checked proof (partial): escape_valid (every escaped byte string, incl. invalid UTF-8 and both HTML settings, is one JSON string token), marshal_valid_partial / marshal_valid_rawfree (Marshal output is a JSON text for every value, nesting and option wrapper; side conditions: not a bare top-level error value, raw messages compact to a value), marshal_unsupported_is_error (a value holding an object without encoder never gets a document), valid_no_panic / indent_no_panic (the scanner automaton never reaches its index/slice panic sites). The scanner (Valid), Compact, Indent and Unmarshal halves are tied by differential testing against the model, the RFC recogniser and encoding/json, not proved.",
-  "note": "Partial. Trusted: Lean kernel; Spec/Json recogniser (checked against encoding/json.Valid by the stream); hand models tied by stream `json`; jsontables generator; strconv.AppendFloat abstract under hypothesis JsonLib.OK (checked by the driver). Open finding: Marshal of a bare error value returns the empty document (pinned by module_test.go), refuted full statement marshal_full_false. Not proved: scanner_sound/complete, compact/indent validity, round trip (decoder not modelled).",
- "C20": {
-  "technique": "Lean 4 theorems over the three conversion type switches of ugo.go regenerated (container loops included) by the Go-to-Lean translator, plus a regenerated table of all registry converters with a nil-guard analysis; hand model of the registry converter results tied by the conv correspondence stream (model vs ToObject/ToObjectAlt/ToInterface and both round trips)",
-  "level": "Machine-checked proof: toObject_toInterface / toInterface_toObject (both round trips, for all plain / canonical values nested arbitrarily deep, with the relation that identifies only nil and empty containers defined explicitly), their ToObjectAlt versions, width_value (every other integer width keeps its mathematical value; float32 is float64(x)), unsupported_is_error (at any nesting depth), conv_no_panic and toInterface_total (every Go value and every Object incl. typed nil pointers of the registry types) are Lean theorems about definitions goextract regenerates from ugo.go and the registry init functions on every run.",
-  "note": "Trusted: Lean kernel; goextract conv.go (scalar cases translated, loop/registry idioms matched against exact templates, fails closed); hand model Model/ConvReg.lean of the registry converters' results, tied by the `conv` stream (all integer widths x boundary values, float patterns, nil/empty containers, registry types incl. nil pointers, 16 unsupported types, random nestings; exact agreement model vs implementation plus the property's own oracle with recover()). float64(float32) is a parameter (exact by the Go spec). ToObjectAlt's round trip excludes rune/char by its documented behaviour. 64-bit int assumed.",
- },
-}
